@@ -514,17 +514,29 @@ class _Spy:
                 spy.total += len(c)
                 return c
 
+            def readinto(self, buf):
+                n = self.r.readinto(buf)
+                spy.events.append(("read", len(buf), spy.total))
+                spy.total += n
+                return n
+
+            def __getattr__(self, name):
+                return getattr(self.r, name)
+
         class D:
             def __init__(self, *a, **k):
                 self.d = real(*a, **k)
 
-            def decompress(self, data):
-                out = self.d.decompress(data)
+            def decompress(self, data, *a, **k):
+                out = self.d.decompress(data, *a, **k)
                 spy.events.append(("oneshot", len(out), 0))
                 return out
 
-            def stream_reader(self, data):
-                return Reader(self.d.stream_reader(data))
+            def stream_reader(self, data, *a, **k):
+                return Reader(self.d.stream_reader(data, *a, **k))
+
+            def __getattr__(self, name):
+                return getattr(self.d, name)
 
         return D
 
@@ -533,12 +545,11 @@ class _Spy:
         real = zlib.decompressobj
 
         class O:
-            def __init__(self, *a):
-                self.o = real(*a)
+            def __init__(self, *a, **k):
+                self.o = real(*a, **k)
 
-            @property
-            def unconsumed_tail(self):
-                return self.o.unconsumed_tail
+            def __getattr__(self, name):  # unconsumed_tail, eof, unused_data, copy ...
+                return getattr(self.o, name)
 
             def decompress(self, buf, n=0):
                 c = self.o.decompress(buf, n)
@@ -546,9 +557,9 @@ class _Spy:
                 spy.total += len(c)
                 return c
 
-            def flush(self):
+            def flush(self, *a):
                 spy.events.append(("flush", len(self.o.unconsumed_tail), spy.total))
-                c = self.o.flush()
+                c = self.o.flush(*a)
                 spy.total += len(c)
                 return c
 
